@@ -23,12 +23,12 @@ def _tup(x):
 
 # ------------------------------------------------------------------------------------------------ numqi.random
 reg('rand_haar_state',
-    lambda r: {'dim': r.randint(1, 6), 'tag_complex': r.random() < 0.6},
+    lambda r: {'dim': r.randint(1, 6) if r.random() < 0.85 else r.choice([17, 64, 200]), 'tag_complex': r.random() < 0.6},
     lambda nq, a, s: nq.random.rand_haar_state(a['dim'], tag_complex=a['tag_complex'], seed=s),
     lambda nq, a, v: mb.haar_state(a, v), branch=lambda a: f"complex={a['tag_complex']}")
 
 reg('rand_haar_unitary',
-    lambda r: {'dim': r.randint(1, 5)},
+    lambda r: {'dim': r.randint(1, 5) if r.random() < 0.85 else r.choice([9, 16, 33])},
     lambda nq, a, s: nq.random.rand_haar_unitary(a['dim'], seed=s),
     lambda nq, a, v: mb.haar_unitary(a, v))
 
@@ -39,7 +39,7 @@ reg('rand_special_orthogonal_matrix',
 
 
 def _g_dm(r):
-    d = r.randint(2, 5)
+    d = r.randint(2, 5) if r.random() < 0.9 else r.choice([8, 16])
     return {'dim': d, 'k': r.choice([None] + list(range(1, d + 1))), 'kind': r.choice(['haar', 'bures'])}
 
 
@@ -156,7 +156,7 @@ reg('rand_orthonormal_matrix_basis',
     lambda nq, a, v: mb.orthonormal_matrix_basis(a, v), branch=lambda a: f"sample={'None' if a['num_sample'] is None else 'int'},I={a['with_I']},nq={a['num_qudit']}")
 
 reg('rand_adjacent_matrix',
-    lambda r: {'dim': r.randint(2, 6)},
+    lambda r: {'dim': r.randint(2, 6) if r.random() < 0.85 else r.choice([17, 40, 64])},
     lambda nq, a, s: nq.random.rand_adjacent_matrix(a['dim'], seed=s),
     lambda nq, a, v: mb.adjacent_matrix(a, v))
 
@@ -171,12 +171,12 @@ def _size_branch(a):
 
 
 reg('rand_n_sphere',
-    lambda r: {'dim': r.randint(1, 4), 'size': _g_size(r)},
+    lambda r: {'dim': r.randint(1, 4) if r.random() < 0.85 else r.choice([33, 300]), 'size': _g_size(r)},
     lambda nq, a, s: nq.random.rand_n_sphere(a['dim'], size=_tup(a['size']), seed=s),
     lambda nq, a, v: mb.n_sphere(a, v), branch=_size_branch)
 
 reg('rand_n_ball',
-    lambda r: {'dim': r.randint(1, 4), 'size': _g_size(r)},
+    lambda r: {'dim': r.randint(1, 4) if r.random() < 0.85 else r.choice([33, 300]), 'size': _g_size(r)},
     lambda nq, a, s: nq.random.rand_n_ball(a['dim'], size=_tup(a['size']), seed=s),
     lambda nq, a, v: mb.n_ball(a, v), branch=_size_branch)
 
@@ -188,7 +188,7 @@ def _g_f2(r):
         if nz and no and int(np.prod(size)) <= 1:
             size = [2]
         return {'size': size, 'not_zero': nz, 'not_one': no}
-    size = [r.randint(1, 4) for _ in range(r.randint(1, 3))]
+    size = [r.randint(1, 4) for _ in range(r.randint(1, 3))] if r.random() < 0.85 else [r.choice([33, 70]), r.choice([2, 40])]
     nz, no = r.random() < 0.4, r.random() < 0.4
     if nz and no and int(np.prod(size)) <= 1:
         size = [2]
@@ -200,25 +200,34 @@ reg('rand_F2', _g_f2,
     lambda nq, a, v: mb.f2(a, v), weight=2, branch=lambda a: f"nz={a['not_zero']},no={a['not_one']}")
 
 reg('rand_SpF2',
-    lambda r: {'n': r.randint(1, 3), 'return_kind': r.choice(['matrix', 'int_tuple', 'int_tuple-matrix'])},
+    lambda r: {'n': r.randint(1, 3) if r.random() < 0.8 else r.choice([5, 8, 20, 33, 40, 64]), 'return_kind': r.choice(['matrix', 'int_tuple', 'int_tuple-matrix'])},
     lambda nq, a, s: nq.random.rand_SpF2(a['n'], return_kind=a['return_kind'], seed=s),
     lambda nq, a, v: mb.spf2(a, v, nq), weight=2, branch=lambda a: a['return_kind'])
 
 reg('rand_Clifford_group',
-    lambda r: {'n': r.randint(1, 3)},
+    lambda r: {'n': r.randint(1, 3) if r.random() < 0.8 else r.choice([5, 8, 20, 33, 40, 64])},
     lambda nq, a, s: nq.random.rand_Clifford_group(a['n'], seed=s),
     lambda nq, a, v: mb.clifford_group(a, v), weight=2)
 
 reg('rand_pauli',
-    lambda r: {'n': r.randint(1, 4), 'is_hermitian': r.choice([None, True, False])},
+    lambda r: {'n': r.randint(1, 4) if r.random() < 0.85 else r.choice([7, 10]), 'is_hermitian': r.choice([None, True, False])},
     lambda nq, a, s: nq.random.rand_pauli(a['n'], is_hermitian=a['is_hermitian'], seed=s),
     lambda nq, a, v: mb.pauli(a, v), branch=lambda a: f"herm={a['is_hermitian']}")
 
 
+def _c_get_numpy_rng(nq, a, s):
+    g = nq.random.get_numpy_rng(s)
+    out = [g.normal(size=a['n'])]
+    if a['spawn']:
+        out += [child.integers(0, 2 ** 32, size=2) for child in g.spawn(a['spawn'])]  # what multi-worker code does with a seeded generator
+    out.append(g.uniform(size=2))
+    return out
+
+
 reg('get_numpy_rng',
-    lambda r: {'n': r.randint(1, 5)},
-    lambda nq, a, s: nq.random.get_numpy_rng(s).normal(size=a['n']),
-    lambda nq, a, v: None if (isinstance(v, np.ndarray) and v.shape == (a['n'],)) else 'shape')
+    lambda r: {'n': r.randint(1, 5), 'spawn': r.choice([0, 1, 2, 3])},
+    _c_get_numpy_rng,
+    lambda nq, a, v: None if (isinstance(v, list) and v[0].shape == (a['n'],)) else 'shape', branch=lambda a: f"spawn={a['spawn'] > 0}")
 
 reg('get_random_rng',
     lambda r: {'n': r.randint(1, 5)},
@@ -259,9 +268,15 @@ def _c_circuit_measure(nq, a, s):
         gates.append(c.measure(tuple(S), seed=(None if s is None else s + j)))
         c.H(S[0])
     out = []
-    for _ in range(a['runs']):
-        q1 = c.apply_state(nq.sim.state.new_base(n))
-        out.append(([[int(b) for b in g.bitstr] for g in gates], q1))
+    width = n
+    for k in range(a['runs']):
+        if a.get('shift') and k == a.get('shift_before_run', 0):
+            c.shift_qubit_index_(a['shift'])  # embedding a sub-circuit into a wider register must keep the seeded outcome stream
+            width = n + a['shift']
+        q1 = c.apply_state(nq.sim.state.new_base(width))
+        # the gate objects of the circuit as it is now (a shift may legitimately replace them)
+        cur = [g for g, _ in c.gate_index_list if getattr(g, 'kind', None) == 'measure']
+        out.append(([[int(b) for b in g.bitstr] for g in cur], q1))
     return out
 
 
@@ -271,10 +286,15 @@ def _g_circuit_measure(r):
     for _ in range(r.randint(1, 3)):
         m = r.randrange(1, 2 ** n)
         subs.append([q for q in range(n) if (m >> q) & 1])
-    return {'n': n, 'subsets': subs, 'runs': r.randint(1, 4)}
+    runs = r.randint(1, 4)
+    a = {'n': n, 'subsets': subs, 'runs': runs}
+    if r.random() < 0.4:
+        a['shift'] = r.choice([1, 2])
+        a['shift_before_run'] = r.randrange(runs)
+    return a
 
 
-reg('Circuit.measure', _g_circuit_measure, _c_circuit_measure, None, weight=2)
+reg('Circuit.measure', _g_circuit_measure, _c_circuit_measure, None, weight=2.5, branch=lambda a: f"shift={bool(a.get('shift'))}")
 
 
 def _c_clifford(nq, a, s):
